@@ -309,8 +309,12 @@ class TransportMixIn(object):
                 additional_headers[key] = value
 
         # Prepare the merged dictionary
+        # (keys are lower-cased while merging, so that the latest pushed value
+        # wins whatever the letter case of its key)
         for headers in self.additional_headers:
-            additional_headers.update(headers)
+            additional_headers.update(
+                (str(key).lower(), value) for key, value in headers.items()
+            )
 
         # Normalize keys and values
         additional_headers = dict(
